@@ -153,10 +153,15 @@ def check_case(prop: str, case, ctx, extra_tag: str = "") -> bool:
             if len(_buffers) > 400:
                 _buffers.clear()
             continue
-        buf[:] = data
         mod2 = importlib.import_module(f"han.{case.vendor}")
+        fn2 = mod2.decode_notification_body if form == "body" else mod2.decode_frame_content
         try:
-            got = (mod2.decode_notification_body if form == "body" else mod2.decode_frame_content)(buf)
+            fn2(buf)  # the message the buffer still holds, decoded from this very object ...
+        except Exception:
+            pass
+        buf[:] = data  # ... then the buffer is refilled and handed over again, as the next call
+        try:
+            got = fn2(buf)
         except Exception:
             ctx.count("reused_buffer_decodes_that_raised(not judged)")
             continue
